@@ -111,9 +111,14 @@ def srcv2Run (maxBlk : Nat) (body : Bytes) (size1 : Option Nat) :
   | [], _, acc => acc.reverse
   | it :: rest, st, acc =>
     match it with
-    | [num, m, szx] =>
+    | num :: m :: szx :: tl =>
+      if tl.length > 1 then ("bad-op" :: acc).reverse else
       let chunk := 2 ^ (szx + 4)
-      let (st', o) := srcvStep Coap.Generated.rblockCnt 0 maxBlk st num m szx ((body.drop (num * chunk)).take chunk) size1
+      let sl := (body.drop (num * chunk)).take chunk
+      let pl := match tl with
+        | [l] => if l ≤ sl.length then sl.take l else sl
+        | _ => sl
+      let (st', o) := srcvStep Coap.Generated.rblockCnt 0 maxBlk st num m szx pl size1
       srcv2Run maxBlk body size1 rest st' (showOut o m :: acc)
     | _ => ("bad-op" :: acc).reverse
 
@@ -179,6 +184,8 @@ def step (op : String) (args : List String) : String :=
   | "srcv", [a, b, c, d, seq] =>
     match nat? a, nat? b, nat? c with
     | some szx, some bodyLen, some seed =>
+      -- a Size1 beyond 64 MiB: the model would build a byte list of that length; only the harness runs (I-vs-S oracle)
+      if (match nat? d with | some t => decide (t > 2 ^ 26) | none => false) then "M big" else
       "M " ++ srcvStepLine szx bodyLen seed (if d = "-" then none else nat? d) seq
     | _, _, _ => "bad-op"
   | "srcv2", [a, b, c, d, seq] =>
@@ -221,14 +228,18 @@ def crcvRun (single : Bool) (body : Bytes) (size2 : Option Nat) :
   | it :: rest, st, acc =>
     match it with
     | num :: m :: szx :: etag :: fmt :: tl =>
-      if szx > 6 ∨ m > 1 ∨ etag > 255 ∨ fmt > 255 ∨ tl.length > 1 then ("bad-op" :: acc).reverse else
+      if szx > 6 ∨ m > 1 ∨ etag > 255 ∨ fmt > 255 ∨ tl.length > 2 then ("bad-op" :: acc).reverse else
       let chunk := 2 ^ (szx + 4)
       let off := if num * chunk > body.length then body.length else num * chunk
       let plen0 := if body.length - off < chunk then body.length - off else chunk
       let plen := match tl with
-        | [l] => if l ≤ body.length - off then l else plen0
+        | l :: _ => if l ≤ body.length - off then l else plen0
         | _ => plen0
-      let r : Resp := { blk := some (num, m, szx), payload := (body.drop off).take plen, size2 := size2,
+      -- 7th field: Size2 of this response (0 = no option, n = Size2 n-1); absent = the line's Size2
+      let sz2 := match tl with
+        | [_, s2] => if s2 = 0 then none else some (s2 - 1)
+        | _ => size2
+      let r : Resp := { blk := some (num, m, szx), payload := (body.drop off).take plen, size2 := sz2,
                         etag := if etag = 0 then none else some [UInt8.ofNat etag], fmt := fmt }
       let (st', o) := crcvStep single Coap.Generated.rblockCnt 0 st r
       crcvRun single body size2 rest st' ((showCrcvOut o ++ "/" ++ showCrcvState st') :: acc)
